@@ -83,7 +83,11 @@ impl OperationControl for Repeat {
     ) -> Box<dyn Iterator<Item = usize> + 'a> {
         let mut iterators: Vec<Box<dyn Iterator<Item = usize>>> = Vec::new();
         let mut positions = Vec::new();
-        let bound = self.max.min(matcher.search.len() - position + 1);
+        // position may lie beyond the end of the input when a precondition is
+        // probed at a fixed position
+        let bound = self
+            .max
+            .min((matcher.search.len() + 1).saturating_sub(position));
         let mut p = position;
         if self.greedy {
             // Prime the arrays first with iterators up to the maximum length,
